@@ -1,6 +1,7 @@
 package main
 
 import (
+	"strings"
 	"fmt"
 
 	"verif/internal/der"
@@ -136,7 +137,35 @@ func c10Kdc(env *Env, rep *Report) int {
 			rep.sample(map[string]any{"part": "d (KDC proxy body)", "input": sc.Name, "bytes": len(sc.RawBody), "status": code, "verdict": v})
 		}
 	}
-	rep.Notes = append(rep.Notes, fmt.Sprintf("part d: %d KDC-proxy request shapes", len(scs)))
+	// well-formed requests whose relay runs into a fault: a message too large for one datagram (the UDP write
+	// fails) or of boundary size, with the TCP side silent / closing / refusing / truncating / answering: the
+	// request is always answered and nobody is left behind
+	k := 0
+	for _, size := range []int{65500, 65507, 65508, 65535, 128*1024 - 32} {
+		for _, u := range []string{"reply", "silent", "refuse"} {
+			for _, tcp := range []string{"silent", "close", "refuse", "half-close", "reply-close"} {
+				k++
+				if !env.mine(len(scs) + k) {
+					continue
+				}
+				n++
+				sc := KdcScenario{NKdc: 1, Realm: "default", Size: size, UDP: []string{u}, TCP: []string{tcp}}
+				sc.Name = fmt.Sprintf("fault/size=%d/udp=%s/tcp=%s", size, u, tcp)
+				res := RunKdc(sc, nil, false)
+				_, vs := kdcCheck(sc, res)
+				rep.add("executions", 1)
+				rep.add("transitions", int64(res.X.Steps))
+				res.X.Finish()
+				rep.outcome(fmt.Sprintf("d kdc fault code=%d", res.Code))
+				for _, v := range vs {
+					if strings.Contains(v.Sig, "request-never-answered") || strings.Contains(v.Sig, "panic") || strings.Contains(v.Sig, "goroutine-left") {
+						rep.violate("C10/kdc-"+strings.TrimPrefix(v.Sig, "C20/")+"/relay-fault", v.Detail, map[string]any{"noreplay": true})
+					}
+				}
+			}
+		}
+	}
+	rep.Notes = append(rep.Notes, fmt.Sprintf("part d: %d KDC-proxy request shapes + %d relay-fault scenarios", len(scs), k))
 	return n
 }
 
